@@ -19,6 +19,10 @@ type c39Pkg struct {
 	Ref   string `json:"reference_go_source"` // what the output has to be equivalent to (== Src for macro-free sources)
 	Macro bool   `json:"uses_macros,omitempty"`
 	Class string `json:"class"`
+	// member of a multi-argument invocation (c39_multi.go): mechanism class (what the same interpreter processed before it), shape#position, invocation name
+	Inv      string `json:"invocation_member_class,omitempty"`
+	InvShape string `json:"invocation_shape_and_position,omitempty"`
+	InvName  string `json:"invocation,omitempty"`
 }
 
 type c39Form struct {
@@ -191,6 +195,11 @@ func c39Corpus(c *core.Ctx) []c39Pkg {
 		pkgs = append(pkgs, c39Pkg{Name: name, Src: src, Ref: src, Class: strings.Join(fnames, "+")})
 	}
 	pkgs = append(pkgs, c39MacroCorpus(c)...)
+	var bodies []string
+	for i := range progs {
+		bodies = append(bodies, progs[i].Body)
+	}
+	pkgs = append(pkgs, c39GroupCorpus(c, bodies)...)
 	return pkgs
 }
 
@@ -234,34 +243,41 @@ var c39Macros = []c39Macro{
 		[][]string{{"n++"}, {"O(n, m)"}, {"m = n * 3"}}},
 }
 
-// c39MacroCorpus: every macro × every argument list × 3 positions (function top level, inside a for body,
-// inside an if/else branch) + the declaration-generating macro.
+type c39Wrap struct {
+	name string
+	f    func(stmt string) string
+}
+
+var c39Wraps = []c39Wrap{
+	{"top", func(s string) string { return s }},
+	{"in-for", func(s string) string { return "for j := 0; j < 2; j++ {\n" + s + "\nm += j\n}" }},
+	{"in-else", func(s string) string { return "if n > 100 {\nS(\"big\")\n} else {\n" + s + "\n}" }},
+	{"in-switch-case", func(s string) string { return "switch n {\ncase 1:\n" + s + "\ndefault:\nS(\"d\")\n}" }},
+}
+
+// c39MacroPkg renders one package using a statement macro at the given position, with its hand-written expansion.
+func c39MacroPkg(name string, mc c39Macro, args []string, w c39Wrap) c39Pkg {
+	body := func(stmt string) string {
+		return "n, m := 1, 2\narr := [3]int{5, 6, 7}\n" + w.f(stmt) + "\nO(n, m, arr)"
+	}
+	head := "package " + name + "\n\n"
+	imports := "import (\n\t. \"orc/h\"\n)\n\n"
+	run := "func Run() string { return Exec(P0) }\n"
+	src := head + ":import \"go/ast\"\n\n" + mc.def + "\n\n" + imports + "func P0() {\n" + body(mc.call(args...)) + "\n}\n\n" + run
+	ref := head + imports + "func P0() {\n" + body(mc.exp(args...)) + "\n}\n\n" + run
+	return c39Pkg{Name: name, Src: src, Ref: ref, Macro: true, Class: "macro-" + mc.name + "-" + w.name}
+}
+
+// c39MacroCorpus: every macro × every argument list × 4 positions (function top level, inside a for body,
+// inside an if/else branch, inside a switch case) + the declaration-generating macro + the force-evaluated chunks.
 func c39MacroCorpus(c *core.Ctx) []c39Pkg {
 	var pkgs []c39Pkg
 	k := 0
-	wrap := []struct {
-		name string
-		f    func(stmt string) string
-	}{
-		{"top", func(s string) string { return s }},
-		{"in-for", func(s string) string { return "for j := 0; j < 2; j++ {\n" + s + "\nm += j\n}" }},
-		{"in-else", func(s string) string { return "if n > 100 {\nS(\"big\")\n} else {\n" + s + "\n}" }},
-		{"in-switch-case", func(s string) string { return "switch n {\ncase 1:\n" + s + "\ndefault:\nS(\"d\")\n}" }},
-	}
 	for _, mc := range c39Macros {
 		for _, args := range mc.args {
-			for _, w := range wrap {
-				body := func(stmt string) string {
-					return "n, m := 1, 2\narr := [3]int{5, 6, 7}\n" + w.f(stmt) + "\nO(n, m, arr)"
-				}
-				name := fmt.Sprintf("m%d", k)
+			for _, w := range c39Wraps {
+				pkgs = append(pkgs, c39MacroPkg(fmt.Sprintf("m%d", k), mc, args, w))
 				k++
-				head := "package " + name + "\n\n"
-				imports := "import (\n\t. \"orc/h\"\n)\n\n"
-				run := "func Run() string { return Exec(P0) }\n"
-				src := head + ":import \"go/ast\"\n\n" + mc.def + "\n\n" + imports + "func P0() {\n" + body(mc.call(args...)) + "\n}\n\n" + run
-				ref := head + imports + "func P0() {\n" + body(mc.exp(args...)) + "\n}\n\n" + run
-				pkgs = append(pkgs, c39Pkg{Name: name, Src: src, Ref: ref, Macro: true, Class: "macro-" + mc.name + "-" + w.name})
 			}
 		}
 	}
@@ -281,5 +297,6 @@ func c39MacroCorpus(c *core.Ctx) []c39Pkg {
 		ref := head + imports + "func dbl(v " + typ + ") " + typ + " {\n\treturn v + v\n}\n\nvar between = 1\n\nfunc second(v " + typ + ") " + typ + " {\n\treturn v + v\n}\n\n" + run
 		pkgs = append(pkgs, c39Pkg{Name: name, Src: src, Ref: ref, Macro: true, Class: "macro-mkdouble-decl"})
 	}
+	pkgs = append(pkgs, c39ForceCorpus(c, k)...)
 	return pkgs
 }
